@@ -29,7 +29,8 @@ type kase struct {
 }
 
 type runner struct {
-	m *morass.Morass
+	m    *morass.Morass
+	slot int // worker index announced to the progress watchdog
 }
 
 func newRunner(dir string) *runner {
@@ -37,7 +38,7 @@ func newRunner(dir string) *runner {
 	if err != nil {
 		panic(err)
 	}
-	return &runner{m}
+	return &runner{m: m}
 }
 
 func (r *runner) close() { r.m.CleanUp() }
@@ -122,6 +123,7 @@ func uncovered(k kase, hits []filter.Hit) (t0, q0 int, matches int, ok bool) {
 }
 
 func check(c *enum.Ctx, r *runner, k kase) (nontrivial bool) {
+	c.Doing(r.slot, k)
 	var hits []filter.Hit
 	var err error
 	if c.Guard("filter/panic", k, func() { hits, err = r.hits(k) }) {
@@ -234,6 +236,7 @@ func run(c *enum.Ctx) {
 			return
 		}
 		r := newRunner(filepath.Join(work))
+		r.slot = ji
 		defer r.close()
 		nt := enum.NontrivialSet{}
 		for _, q := range queries {
@@ -255,6 +258,7 @@ func run(c *enum.Ctx) {
 	enum.Parallel(len(psA), func(pi int) {
 		p := psA[pi]
 		r := newRunner(filepath.Join(work))
+		r.slot = pi
 		defer r.close()
 		nt := enum.NontrivialSet{}
 		for _, s := range selfs {
@@ -306,6 +310,7 @@ func run(c *enum.Ctx) {
 		j := jobs[ji]
 		p := j.p
 		r := newRunner(filepath.Join(work))
+		r.slot = ji
 		defer r.close()
 		nt := enum.NontrivialSet{}
 		// substitution patterns
@@ -352,6 +357,7 @@ func run(c *enum.Ctx) {
 			return
 		}
 		r := newRunner(filepath.Join(work))
+		r.slot = ji
 		defer r.close()
 		nt := enum.NontrivialSet{}
 		bg := strings.Repeat("t", qlen)
@@ -422,6 +428,7 @@ func run(c *enum.Ctx) {
 		p := j.p
 		tgt := deBruijn("acg", p.K+2)[:j.tlen]
 		r := newRunner(filepath.Join(work))
+		r.slot = ji
 		defer r.close()
 		nt := enum.NontrivialSet{}
 		bg := strings.Repeat("t", j.qlen)
@@ -477,6 +484,7 @@ func run(c *enum.Ctx) {
 		p := j.p
 		tgt := deBruijn("acg", p.K)[:j.tlen]
 		r := newRunner(filepath.Join(work))
+		r.slot = ji
 		defer r.close()
 		nt := enum.NontrivialSet{}
 		bg := strings.Repeat("t", j.qlen)
@@ -529,6 +537,7 @@ func run(c *enum.Ctx) {
 		p := j.p
 		tgt := deBruijn("acg", p.K)[:j.tlen]
 		r := newRunner(filepath.Join(work))
+		r.slot = ji
 		defer r.close()
 		nt := enum.NontrivialSet{}
 		var pats [][]int
